@@ -55,6 +55,7 @@ var c07Universe = []c07Pkg{
 }
 
 type c07Spec struct {
+	raw     bool // the path is written as a raw string literal
 	path    string
 	alias   string // "", name, "_", "."
 	comment string
@@ -133,7 +134,7 @@ func c07Generate(r *rand.Rand) *c07Config {
 	usedAlias := map[string]bool{}
 	for k := 0; k < nimp && k < len(perm); k++ {
 		p := c07Universe[perm[k]]
-		sp := c07Spec{path: p.path}
+		sp := c07Spec{path: p.path, raw: r.Intn(10) == 0}
 		if cfg.shape == "aliased-blank-dot" || r.Intn(5) == 0 {
 			switch r.Intn(4) {
 			case 0:
@@ -268,7 +269,11 @@ func (cfg *c07Config) source() string {
 			if s.alias != "" {
 				l += s.alias + " "
 			}
-			l += strconv.Quote(s.path)
+			if s.raw {
+				l += "`" + s.path + "`"
+			} else {
+				l += strconv.Quote(s.path)
+			}
 			if s.comment != "" {
 				l += " " + s.comment
 			}
@@ -314,6 +319,15 @@ func (cfg *c07Config) build() (*dst.File, string, error) {
 	src := cfg.source()
 	if g, err := format.Source([]byte(src)); err == nil {
 		src = string(g) // the input is gofmt-canonical: import blocks are already sorted
+	}
+	// gofmt rewrites raw-string import paths; they are put back afterwards (valid Go, and the
+	// import section is otherwise in its canonical order and layout)
+	for _, b := range cfg.blocks {
+		for _, sp := range b {
+			if sp.raw && sp.path != "C" {
+				src = strings.Replace(src, strconv.Quote(sp.path), "`"+sp.path+"`", 1)
+			}
+		}
 	}
 	f, err := decorator.Parse(src)
 	if err != nil {
@@ -376,6 +390,13 @@ func (cfg *c07Config) resolverFor() resolver.RestorerResolver {
 func (cfg *c07Config) resolvedName(path string) string {
 	n, _ := cfg.resolverFor().ResolvePackage(path)
 	return n
+}
+
+// rawPathsQuoted rewrites raw-string import paths as interpreted strings, as go/printer does.
+var rawPathRE = regexp.MustCompile("`([^`\n]*)`")
+
+func rawPathsQuoted(section string) string {
+	return rawPathRE.ReplaceAllStringFunc(section, func(m string) string { return strconv.Quote(m[1 : len(m)-1]) })
 }
 
 func importSection(src string) string {
@@ -700,7 +721,7 @@ func c07One(c *fw.Ctx, id string) {
 				same = false // a blank import that is referenced has to be given a name
 			}
 		}
-		if same && importSection(out) != importSection(src) {
+		if same && importSection(out) != rawPathsQuoted(importSection(src)) {
 			viol("import-section-changed", "import-section-changed", "nothing had to change in the imports, yet the import section differs")
 		}
 		if same {
